@@ -75,7 +75,7 @@ def _sample_runs(ctx, path, want=2, min_n=60):
     got = 0
     for run in vlib.split_runs(evs):
         n = (run[0].get("d") or {}).get("n", 0)
-        if n >= min_n and any(e.get("op") == "readback" for e in run):
+        if n >= min_n and run[0].get("profile") in ("full", "outliers", "gap") and any(e.get("op") == "readback" for e in run):
             ctx.sample({"trace_file": os.path.relpath(path, vlib.VERIF), "run": [_short(e) for e in run[:6]]}, limit=8)
             got += 1
             if got >= want:
